@@ -8,3 +8,16 @@ package backend
 //@   props C17
 //@ func lemmaC17_percentage
 //@   props C17
+
+// ----- key envelopes (C17 / C16): without a KEK label (or without a KEK) the key is carried in clear; with one
+// the envelope carries that label and whatever RFC 3394 wrapping (third-party, assumed total) produced
+//@ func NewKeyEnvelope
+//@   props C16 C17
+//@   modifies nothing
+//@   ensures clear: (kekLabel == "" || len(kek) == 0) ==> err == nil && result0 != nil && result0.KEKLabel == "" && len(result0.AESKey) == 16 && forall k int :: 0 <= k && k < 16 ==> result0.AESKey[k] == key[k]
+//@   ensures wrapped: !(kekLabel == "" || len(kek) == 0) && err == nil ==> result0 != nil && result0.KEKLabel == kekLabel
+//@   ensures fresh: err == nil ==> fresh(result0) && fresh(result0.AESKey)
+//@   ensures failed: err != nil ==> result0 == nil
+//@ func (KeyEnvelope).Unwrap
+//@   props C17
+//@   modifies nothing
